@@ -61,3 +61,34 @@ Proof.
   rewrite Hr in R. destruct (read_compiled c fuel false (fields_of segs) (pre ++ bs ++ rest) (zlen pre)) as [[v2 p2]|]; cbn in R; [|contradiction].
   injection R as -> ->. eauto.
 Qed.
+
+(* ---------- C08 / C09 through the compiled reader ---------- *)
+From VF Require Import Proofs.ShiftProps.
+(* a value the generated statements return from a stream is the value they return from any extension of that stream: cutting the input can only
+   make the compiled reader fail, never return something else *)
+Theorem compiled_extension_stable c fuel nm fs p :
+  Forall (fun f => f_off f = None /\ cls' c fuel f) fs -> NoDup (map f_name fs) -> bsize c fs <= 9223372036854775807 -> compile_plan c false fs = Ok p ->
+  simple (TStruct nm fs false) = true ->
+  forall s1 s2 pos r, 0 <= pos -> read_compiled c fuel false fs s1 pos = Ok r -> read_compiled c fuel false fs (s1 ++ s2) pos = Ok r.
+Proof.
+  intros Hcl Hnd Hb Hp Hsi s1 s2 pos r H0 H.
+  pose proof (compiled_is_interpreted c fuel nm fs p Hcl Hnd Hb Hp s1 pos [] H0) as R1. rewrite H in R1.
+  destruct (read_ty c fuel (TStruct nm fs false) s1 pos []) as [r1|] eqn:E1; cbn in R1; [|contradiction]. subst r1.
+  pose proof (read_ty_ext c fuel (TStruct nm fs false) Hsi s1 s2 pos [] r E1) as E2.
+  pose proof (compiled_is_interpreted c fuel nm fs p Hcl Hnd Hb Hp (s1 ++ s2) pos [] H0) as R2. rewrite E2 in R2.
+  destruct (read_compiled c fuel false fs (s1 ++ s2) pos) as [r2|]; cbn in R2; [now subst|contradiction].
+Qed.
+(* the compiled reader does not depend on what precedes the position it starts at *)
+Theorem compiled_position_independent pre c fuel nm fs p :
+  Forall (fun f => f_off f = None /\ cls' c fuel f) fs -> NoDup (map f_name fs) -> bsize c fs <= 9223372036854775807 -> compile_plan c false fs = Ok p ->
+  shift_ok pre c (TStruct nm fs false) = true ->
+  forall s pos, 0 <= pos -> req (read_compiled c fuel false fs (pre ++ s) (zlen pre + pos)) (shift (zlen pre) (read_compiled c fuel false fs s pos)).
+Proof.
+  intros Hcl Hnd Hb Hp Hsh s pos H0.
+  pose proof (compiled_is_interpreted c fuel nm fs p Hcl Hnd Hb Hp (pre ++ s) (zlen pre + pos) [] ltac:(pose proof (zlen_nonneg pre); lia)) as R1.
+  pose proof (compiled_is_interpreted c fuel nm fs p Hcl Hnd Hb Hp s pos [] H0) as R2.
+  rewrite (proj1 (read_ty_shift pre c fuel (TStruct nm fs false) Hsh s pos [] H0)) in R1.
+  refine (req_trans _ _ _ R1 _). apply req_sym.
+  destruct (read_compiled c fuel false fs s pos) as [[v q]|], (read_ty c fuel (TStruct nm fs false) s pos []) as [[v' q']|]; cbn in R2 |- *; try contradiction; auto.
+  injection R2 as -> ->. reflexivity.
+Qed.
